@@ -95,6 +95,22 @@ fn gen() -> Vec<Case> {
             out.push(Case { input: format!("{prefix} foo"), kw: None, word: "foo".into(), family: "unknown-word" });
         }
     }
+    // offending words that contain multi-character sequences a message formatter might treat
+    // specially (terminal control sequences, format directives, markup, combining characters)
+    for w in [
+        "\u{1b}[31mroot\u{1b}[0m", "x\u{1b}[2Ky", "\u{1b}[H", "\u{1b}]0;t\u{7}z", "a\u{1b}b", "{}", "{0}", "{:?}", "%s", "%n", "$id", "`id`", "&amp;", "<b>x</b>", "e\u{301}", "\u{202e}abc", "a\u{200d}b", "\u{feff}x", "x\u{0}y", "a%20b", "\\x41", "\\n", "a\\", "~a", "x{y", "}x", "[x]", "😀", "\u{10000}0",
+    ] {
+        let w = w.to_string();
+        out.push(Case { input: format!("-uid {w}"), kw: Some("-uid"), word: w.clone(), family: "invalid-argument" });
+        out.push(Case { input: format!("-name a -links {w} -print"), kw: Some("-links"), word: w.clone(), family: "invalid-argument" });
+        out.push(Case { input: format!("-mmin {w}"), kw: Some("-mmin"), word: w.clone(), family: "invalid-argument" });
+        out.push(Case { input: format!("-type {w}"), kw: Some("-type"), word: w.clone(), family: "invalid-argument" });
+        out.push(Case { input: format!("-threads {w}"), kw: Some("-threads"), word: w.clone(), family: "invalid-argument" });
+        if !w.starts_with('-') {
+            out.push(Case { input: format!("-true {w}"), kw: None, word: w.clone(), family: "unknown-word" });
+            out.push(Case { input: format!("{w} -print"), kw: None, word: w.clone(), family: "unknown-word" });
+        }
+    }
     for w in ["foo", "-foo", "-bogus"] {
         out.push(Case { input: format!("( -true -o {w})"), kw: None, word: w.to_string(), family: "unknown-word" });
         out.push(Case { input: format!("({w})"), kw: None, word: w.to_string(), family: "unknown-word" });
@@ -204,7 +220,37 @@ fn every_character() -> Acc {
 
 pub fn run(ctx: &Ctx) -> i32 {
     let cases = gen();
-    let acc = par_items(&cases, check).merge(every_character());
+    let mut acc = par_items(&cases, check).merge(every_character());
+    // a message belongs to the call that failed: several threads parse their own invalid texts
+    // at once; each must get the message it gets alone (sampled schedules)
+    {
+        let texts: Vec<String> = [
+            "-name aaaaaaaaaaaaaaaaaaaaaaaaaaaaaaaaaaaaaaaaaaaaaaaaaaaaaaaaaaaaaaaaaaaaaaaaaa -o -uid oops",
+            "-amin +5x",
+            "-size +5x -print",
+            "-type f,x",
+            "-name ok -path alsook -iname fine -links 3",
+            "-perm u+q",
+            "-name b -o -threads many",
+            "-true bogus",
+            "-printf '%p %q'",
+            "-mtime",
+            "( -name a -o -gid 7z )",
+            "-xattr-match k",
+        ]
+        .iter()
+        .map(|s| s.to_string())
+        .collect();
+        let rounds = ctx.tier.pick(3000, 40000);
+        acc.count("concurrent_parses_sampled", (texts.len() * rounds) as u64);
+        for (k, r, want, got) in crate::subject::concurrent_calls(&texts, rounds) {
+            acc.violate(Violation::new(
+                "C18:message-depends-on-other-threads",
+                format!("{} threads parse their own texts at once; thread {k} ({:?}) got in round {r}: {got:?}; alone it gets {want:?}", texts.len(), texts[k]),
+                json!({"kind": "concurrent"}),
+            ));
+        }
+    }
     finish(
         ctx,
         acc,
